@@ -88,7 +88,7 @@ theorem postPasses_single (t : Token) (hw : âˆ€ n, t â‰  .whitespace n) (hu : âˆ
   cases t with
   | whitespace n => exact absurd rfl (hw n)
   | unknown s => exact absurd rfl (hu s)
-  | _ => simp [postPasses, trimEnd, collapseTriples, tripleLocs, collapseDoubles, doubleLocs,
+  | _ => simp [postPasses, trimEnd, trimEndRev, collapseTriples, tripleLocs, collapseDoubles, doubleLocs,
       separateWords, wordLocs, applyLocs]
 
 end Lex
